@@ -63,6 +63,8 @@ static std::string rx(const Args& a)
         if (b.type == FT::LSF) { for (auto x : b.lsf) v.push_back(x); frames += " L " + join(v) + " ;"; }
         else if (b.type == FT::STREAM) { v.push_back(cost); for (auto x : b.stream) v.push_back(x); frames += " S " + join(v) + " ;"; }
         else if (b.type == FT::LICH) { for (auto x : b.lich) v.push_back(x); frames += " K " + join(v) + " ;"; }
+        else if (b.type == FT::BASIC_PACKET || b.type == FT::FULL_PACKET) { v.push_back(int(b.type)); v.push_back(cost); for (auto x : b.packet) v.push_back(x); frames += " P " + join(v) + " ;"; }
+        else if (b.type == FT::BERT) { v.push_back(cost); for (auto x : b.bert) v.push_back(x); frames += " B " + join(v) + " ;"; }
         else frames += " O " + std::to_string(int(b.type)) + " ;";
         return !(b.type == FT::STREAM && cost < 70 && (b.stream[0] & 0x80));
     };
